@@ -59,8 +59,7 @@ func rkgOps(p multiparty.RelinearizationKeyGenProtocol, ek rlwe.EvaluationKeyPar
 			return r2
 		},
 		add: func(a, b multiparty.RelinearizationKeyGenShare, out *multiparty.RelinearizationKeyGenShare) error {
-			p.AggregateShares(a, b, out)
-			return nil
+			return callErr(p.AggregateShares, a, b, out)
 		},
 		hop: func(s multiparty.RelinearizationKeyGenShare, mode int) (multiparty.RelinearizationKeyGenShare, error) {
 			var out multiparty.RelinearizationKeyGenShare
@@ -136,7 +135,10 @@ func runRKG(c RKGCase, rec *h.Rec) error {
 	}
 
 	ops1 := rkgOps(protos[0], ek, 1)
-	ref1, _ := refAggregate(r1, ops1)
+	ref1, err := refAggregate(r1, ops1)
+	if err != nil {
+		return h.Failf("C14:RKG:aggregation-failed", "round one, index order: %v", err)
+	}
 	agg1, err := runSched(r1, c.Sched1, ops1)
 	if err != nil {
 		return h.Failf("C14:RKG:aggregation-failed", "round one: %v", err)
@@ -173,7 +175,10 @@ func runRKG(c RKGCase, rec *h.Rec) error {
 		}
 	}
 	ops2 := rkgOps(protos[0], ek, 2)
-	ref2, _ := refAggregate(r2, ops2)
+	ref2, err := refAggregate(r2, ops2)
+	if err != nil {
+		return h.Failf("C14:RKG:aggregation-failed", "round two, index order: %v", err)
+	}
 	agg2, err := runSched(r2, c.Sched2, ops2)
 	if err != nil {
 		return h.Failf("C14:RKG:aggregation-failed", "round two: %v", err)
@@ -186,7 +191,9 @@ func runRKG(c RKGCase, rec *h.Rec) error {
 	}
 
 	rlk := rlwe.NewRelinearizationKey(params, ek)
-	protos[n-1].GenRelinearizationKey(agg1, agg2, rlk)
+	if err := callErr(protos[n-1].GenRelinearizationKey, agg1, agg2, rlk); err != nil {
+		return h.Failf("C14:RKG:GenRelinearizationKey-error", "finalisation of matching shares and key failed: %v", err)
+	}
 
 	// rows: b + a*s - P*2^(wj)*s^2 = e0*s + e1 + u*e2 with e0,e1,e2 sums of n errors, u the sum of n ephemeral secrets
 	be := int64(c.Params.Xe.AbsBound())
